@@ -378,8 +378,12 @@ func hasDestroyed(rs []ringD, sel []string) bool {
 func run(r *core.Run) {
 	r.Rule = "source key stores built through the API from generated ring descriptions (0-3 keys per ring, key pairs / symmetric / both formats, assorted states incl. destroyed, with or without current), a selection of ring paths (existing, repeated or missing), mode private / public-only, target empty or holding some of the rings; " +
 		"a case is non-trivial when at least one ring with at least one key is selected; distinct by the op line. " +
-		"v1 stream: a real v1 key store with two clients (storage key pair, symmetric, HMAC keys, 0-2 rotations each) and a poison pair; export by id of every kind and export of everything, import into a fresh store, compare through the read API; bundle scan; sampled single-byte modifications of bundle and access key"
+		"v1 stream: a real v1 key store with two clients (storage key pair, symmetric, HMAC keys, 0-2 rotations each) and a poison pair; export by id of every kind and export of everything, import into a fresh store, compare through the read API; bundle scan; sampled single-byte modifications of bundle and access key; " +
+		"v1 model streams: file names (API names of valid and look-alike ids, rotated-key names over valid / boundary / mutated timestamps, poison and special names, random names) through the real name classification; real stores built through the API (1-3 clients incl. ids containing key-kind suffixes, rotations, poison pair/symmetric, log key) exported (all / private / public / by ids, source directory also spelled non-canonically), imported into empty and non-empty stores, bundles opened, migrated to v2 (whole and partial stores) - every step compared with the Lean model; " +
+		"cmd stream: several exports into the same --key_bundle_file/--key_bundle_secret files (both formats), the files must hold exactly the last bundle and import"
 	runV1(r) // v1 key store first: its regression corpus (repo-patches/04) runs on every run
+	runV1Model(r)
+	runCmdFiles(r)
 	rd := r.Rand.Fork()
 	n := r.N(250, 6000)
 	tamperBudget := r.N(6, 60)
